@@ -577,6 +577,11 @@ func genC16(out, tier string, rng *rand.Rand) {
 			tasks = append(tasks, Task{en, "policy", prog})
 		}
 	}
+	for _, en := range engines() {
+		for _, prog := range c16RulePrograms() {
+			tasks = append(tasks, Task{en, "rule-changes", prog})
+		}
+	}
 	// cut-off boundaries: a cell exactly at, one microsecond-step below and above the max-age cut-off
 	for _, en := range engines() {
 		for _, d := range []int64{-1000, 0, 1000} {
